@@ -124,7 +124,9 @@ impl Controller for FormMultipartEnctypePostMethodController {
                 return response;
             }
             let content_disposition = boxed_content_disposition.unwrap();
-            let formatted_output = format!("{} is {} {}", content_disposition.field_name.unwrap(), String::from_utf8(part.body.clone()).unwrap(), SYMBOL.new_line_carriage_return);
+            // name is optional in the Content-Disposition header and a part (uploaded file as an example) may contain arbitrary bytes
+            let field_name = content_disposition.field_name.unwrap_or(SYMBOL.empty_string.to_string());
+            let formatted_output = format!("{} is {} {}", field_name, String::from_utf8_lossy(&part.body), SYMBOL.new_line_carriage_return);
             formatted_list.push(formatted_output);
         }
 
@@ -258,7 +260,9 @@ impl FormMultipartEnctypePostMethodController {
                 return response;
             }
             let content_disposition = boxed_content_disposition.unwrap();
-            let formatted_output = format!("{} is {} {}", content_disposition.field_name.unwrap(), String::from_utf8(part.body.clone()).unwrap(), SYMBOL.new_line_carriage_return);
+            // name is optional in the Content-Disposition header and a part (uploaded file as an example) may contain arbitrary bytes
+            let field_name = content_disposition.field_name.unwrap_or(SYMBOL.empty_string.to_string());
+            let formatted_output = format!("{} is {} {}", field_name, String::from_utf8_lossy(&part.body), SYMBOL.new_line_carriage_return);
             formatted_list.push(formatted_output);
         }
 
